@@ -18,13 +18,13 @@ var zooTypes = map[string][]zf{
 	"Query": {{"title", "", ""}, {"count", "", ""}, {"ratio", "", ""}, {"flag", "", ""}, {"size", "", ""},
 		{"keeper", "Keeper", "keeper"}, {"keepers", "Keeper", ""}, {"animals", "Animal", ""}, {"things", "Thing", ""},
 		{"grid", "Cell", ""}, {"echo", "", "echo"}, {"tags", "", ""}, {"nums", "", ""}, {"find", "Keeper", "find"}, {"boss", "Keeper", ""},
-		{"ghost", "", ""}, {"relay", "", "relay"}, {"pick", "Thing", "pick"}, {"join", "", "join"}, {"span", "", "span"}, {"chief", "Keeper", ""}},
+		{"ghost", "", ""}, {"relay", "", "relay"}, {"pick", "Thing", "pick"}, {"join", "", "join"}, {"span", "", "span"}, {"chief", "Keeper", ""}, {"blob", "", "blob"}},
 	"Keeper": {{"name", "", ""}, {"age", "", ""}, {"pets", "Animal", ""}, {"friend", "Keeper", ""}, {"cells", "Cell", ""},
 		{"motto", "", "motto"}, {"rank", "", ""}, {"dogs", "Dog", ""}, {"ghost", "", ""}, {"nick", "", "nick"}, {"code", "", "code"}},
-	"Dog":      {{"name", "", ""}, {"legs", "", ""}, {"barks", "", ""}, {"owner", "Keeper", ""}, {"code", "", ""}},
-	"Bird":     {{"name", "", ""}, {"legs", "", ""}, {"wingspan", "", ""}, {"code", "", ""}},
+	"Dog":      {{"name", "", ""}, {"legs", "", ""}, {"barks", "", ""}, {"owner", "Keeper", ""}, {"code", "", ""}, {"call", "", "call"}},
+	"Bird":     {{"name", "", ""}, {"legs", "", ""}, {"wingspan", "", ""}, {"code", "", ""}, {"call", "", "call"}},
 	"Cell":     {{"x", "", ""}, {"y", "", ""}, {"label", "", ""}, {"code", "", ""}},
-	"Animal":   {{"name", "", ""}, {"legs", "", ""}},
+	"Animal":   {{"name", "", ""}, {"legs", "", ""}, {"call", "", "call"}},
 	"Mutation": {{"rename", "Keeper", "rename"}},
 }
 
@@ -56,6 +56,9 @@ func (r *Request) DrawVars(t *tape.Tape) map[string]interface{} {
 				continue // has a default: leave it out
 			}
 		}
+		if (n == "cp" || n == "bw" || n == "ps") && t.Bool(1, 3) {
+			continue // nullable and without a value in this call
+		}
 		switch strings.TrimSuffix(r.VarTypes[n], "!") {
 		case "String":
 			if n == "kn" || n == "nm" {
@@ -67,6 +70,8 @@ func (r *Request) DrawVars(t *tape.Tape) map[string]interface{} {
 			out[n] = 20 + t.Draw(50)
 		case "Boolean":
 			out[n] = t.Bool(1, 2)
+		case "[Range]":
+			out[n] = []interface{}{map[string]interface{}{"hi": t.Draw(9)}, map[string]interface{}{}}
 		case "Range":
 			switch t.Draw(3) {
 			case 0:
@@ -122,6 +127,12 @@ type ReqOpt struct {
 	// Nick allows Keeper.nick (nullable argument, Go parameter that cannot
 	// take null: a reflection root answers null / omitted with an error).
 	Nick bool
+	// Blob allows blob(j: Json): an argument of a custom scalar type given as
+	// an object literal with $variables inside.
+	Blob bool
+	// Call allows call(prefix:, suffix:), a field of the interface Animal with
+	// two arguments, one of them a variable that is sometimes left unset.
+	Call bool
 	// Span allows span(r: Range): an input type whose fields have list and
 	// input-object defaults (nested), answered with the argument as received.
 	Span bool
@@ -224,8 +235,32 @@ func (g *reqGen) argsFor(kind string) string {
 		} else {
 			parts = []string{"i: " + strconv.Itoa(g.t.Draw(12))}
 		}
+	case "blob":
+		switch g.t.Draw(4) {
+		case 0:
+			return ""
+		case 1:
+			parts = []string{"j: {a: 1, b: [true, \"x\"]}"}
+		case 2:
+			parts = []string{"j: {a: " + g.addVar("bv", "Int", g.t.Draw(9), "5") + ", b: [" + g.addVar("bv", "Int", 0, "5") + ", 1], c: {d: \"x\"}}"}
+		default:
+			parts = []string{"j: [" + g.addVar("bw", "String", "w"+strconv.Itoa(g.t.Draw(5)), "") + ", {e: " + g.addVar("bw", "String", "", "") + "}]"}
+		}
+	case "call":
+		switch g.t.Draw(4) {
+		case 0:
+			parts = []string{"prefix: \"<\"", "suffix: \">\""}
+		case 1:
+			parts = []string{"prefix: " + g.addVar("cp", "String", "p"+strconv.Itoa(g.t.Draw(5)), ""), "suffix: \"!\""}
+		case 2:
+			parts = []string{"suffix: " + g.addVar("cs", "String", "s"+strconv.Itoa(g.t.Draw(5)), "\"?\""), "prefix: " + g.addVar("cp", "String", "q", "")}
+		default:
+			parts = []string{"prefix: \"only\""}
+		}
 	case "span":
-		switch g.t.Draw(7) {
+		switch g.t.Draw(8) {
+		case 7:
+			parts = []string{"r: {parts: " + g.addVar("ps", "[Range]", []interface{}{map[string]interface{}{"hi": 2}}, "[{hi: 4}, {}, {inner: {}}]") + "}"}
 		case 0:
 			return ""
 		case 1:
@@ -323,6 +358,14 @@ func (g *reqGen) fieldsOf(typ string) []zf {
 			}
 		case "chief":
 			continue // only through the fixed AltRequests (plain struct fields)
+		case "blob":
+			if !g.o.Blob {
+				continue
+			}
+		case "call":
+			if !g.o.Call {
+				continue
+			}
 		case "nick":
 			if !g.o.Nick {
 				continue
